@@ -200,6 +200,7 @@ def check_consensus(ctx):
     empty = [s for s in rets if s is not final and s not in else_rets]
     oke = len(empty) == 1 and u(empty[0].value) == '(None, set())' and path_atoms(gm[empty[0]]) == {('false', taxa)}
     rep.add('N3', fi.site(empty[0] if empty else fn), 'empty input: no consensus, empty set', oke, expected=f'if not {taxa}: return (None, set())', found=[u(r) for r in empty], stmt='empty input')
+    rep.account_returns('N3', fi, [final] + else_rets + empty, 'consensus')
     lst = [s for s in fn.body if isinstance(s, ast.Assign) and u(s.targets[0]) == taxa]
     rep.add('N3', fi.site(lst[0] if lst else fn), 'the input is materialised once (it is iterated several times)', len(lst) == 1 and u(lst[0].value) == f'list({taxa})' and lst[0].lineno < linit.lineno,
             expected=f'{taxa} = list({taxa})', found=[u(x) for x in lst], stmt='materialise')
@@ -266,6 +267,7 @@ def check_strict(ctx):
     okk = is_const(kw.get('success'), True)
     rep.add('N4', fi.site(rc), 'otherwise the strict result is successful', okk, expected='success=True', found=u(kw.get('success')), stmt='success default')
     last = fn.body[-1]
+    rep.account_returns('N4', fi, [s for s in stmts_in(fn.body) if isinstance(s, ast.Return) and (s is last or any(x is c for (c, _) in nm for x in ast.walk(s)) or ('false', 'strict') in path_atoms(gm[s]))], 'strict classification result')
     rep.add('N4', fi.site(last), 'the strict result object is what is returned', isinstance(last, ast.Return) and u(last.value) == res, expected=f'return {res}', found=u(last), stmt='strict return')
 
     # N5 primary match
